@@ -99,6 +99,9 @@ pub struct Case {
     /// directories / patterns / list lines, depending on `path_form`
     #[serde(default)]
     pub path_args: Vec<String>,
+    /// `--files-from` only: the list contains an undecodable line before the n-th entry
+    #[serde(default, skip_serializing_if = "Option::is_none")]
+    pub list_poison: Option<usize>,
 }
 
 #[derive(Serialize, Deserialize, Clone, Debug, PartialEq, Eq)]
@@ -360,9 +363,20 @@ impl Case {
                 }
                 PathForm::FilesFrom => {
                     sc.argv.extend(["--files-from".into(), "files.lst".into()]);
-                    let mut list = self.path_args.join("\n");
-                    list.push('\n');
-                    sc.real_files = vec![("files.lst".to_string(), list)];
+                    let mut list: Vec<u8> = vec![];
+                    for (i, line) in self.path_args.iter().enumerate() {
+                        if self.list_poison == Some(i) {
+                            // a line that is not valid UTF-8 (a Latin-1 file name written by
+                            // another tool): the list cannot be read as text
+                            list.extend_from_slice(b"caf\xe9.pas\n");
+                        }
+                        list.extend_from_slice(line.as_bytes());
+                        list.push(b'\n');
+                    }
+                    sc.real_files = vec![RealFile {
+                        path: "files.lst".to_string(),
+                        bytes: list,
+                    }];
                     sc.real_tree = true;
                 }
             }
@@ -500,6 +514,15 @@ impl Case {
         }
         if self.files.len() > 1 {
             stats.probe("c16_multi_file_batch_judged");
+        }
+        // An unreadable --files-from list is a failure of the invocation as a whole: nothing is
+        // claimed about the files when it is reported (exit != 0); a run that claims success
+        // must have treated every listed file like any other run.
+        if self.list_poison.is_some() && self.path_form == PathForm::FilesFrom {
+            stats.probe("c16_unreadable_files_from_list");
+            if exit_nonzero(&r) {
+                return Verdict::Judged(out);
+            }
         }
 
         let mut any_must_fail = false;
